@@ -30,6 +30,8 @@ def c18(tier):
     ed.run(P, C)
     # a rejected fit releases what it had built: every rejection precedes the CHOLMOD workspace
     ed.rh2(P, C)
+    # a handle that was only initialised holds an empty table: the wrapped lookup / grid evaluation must fail, not crash the process
+    pm.es2(P, C)
     C.extra["units"] = sorted(P.units.keys())
     C.extra["functions_analysed"] = len(P.functions)
     return C.finish()
@@ -135,6 +137,7 @@ def c20(tier):
     ed.rh2(P, C)
     # comparison is one of the operations of a history: it must be total (two empty tables)
     pm.es1(P, C)
+    pm.es2(P, C)
     C.extra["units"] = sorted(P.units.keys())
     C.extra["mutators"] = [ts.fshort(f) for f in ts.mutators(P)]
     return C.finish()
